@@ -160,6 +160,7 @@ pub assume_specification [ u32::div_ceil ] (a: u32, b: u32) -> (r: u32) requires
 const BLOCK_WIDTH : usize = 8 ;
 
 
+
 // real: assert_eq!(values.len(), 8); assert!((1..=63).contains(&bits)); assert!(bytes.len() < bits * 8) (sic); then pack_bits_<bits> writes bytes[0..bits]
 #[verifier::external_body]
 fn pack_bits_block(values: &[u64], bytes: &mut [u8], bits: u8)
@@ -177,6 +178,7 @@ fn unpack_bits_block(values: &mut [u64], bytes: &[u8], bits: u8)
 #[verifier::external_body]
 struct BitPacker < 'a > {
 bytes : & 'a mut [ u8 ] , byte_index : usize , byte_bit_used : u8 , }
+
 
 
 impl<'a> BitPacker<'a> {
@@ -207,6 +209,7 @@ struct BitUnpacker < 'a > {
 bytes : & 'a [ u8 ] , byte_index : usize , byte_bit_used : u8 , }
 
 
+
 impl<'a> BitUnpacker<'a> {
     spec fn bitpos(&self) -> int { 8 * self.byte_index + self.byte_bit_used }
 
@@ -214,6 +217,7 @@ impl<'a> BitUnpacker<'a> {
 Self {
 bytes , byte_index : 0 , byte_bit_used : 0 , }
 }
+
 
 
     // real: every shift is by < 8 or exactly 8 on a u64; the only panic is bytes[byte_index] out of range
@@ -233,6 +237,7 @@ struct SketchBytes {
 bytes : Vec < u8 > , }
 
 
+
 impl SketchBytes {
     spec fn view(&self) -> Seq<u8> { self.bytes@ }
 
@@ -242,8 +247,10 @@ bytes : Vec :: with_capacity ( capacity ) , }
 }
 
 
+
     fn into_bytes ( self ) -> ( r : Vec < u8 > ) ensures r @ == self @ {
 self . bytes }
+
 
 
     fn write ( & mut self , buf : & [ u8 ] ) ensures final ( self ) @ == old ( self ) @ + buf @ {
@@ -251,9 +258,11 @@ self . bytes . extend_from_slice ( buf ) ;
 }
 
 
+
     fn write_u8 ( & mut self , n : u8 ) ensures final ( self ) @ == old ( self ) @ . push ( n ) {
 self . bytes . push ( n ) ;
 }
+
 
 
     fn write_u16_le ( & mut self , n : u16 ) ensures final ( self ) @ == old ( self ) @ + le16_bytes ( n ) {
@@ -261,9 +270,11 @@ self . write ( & vx_u16_to_le_bytes ( n ) ) ;
 }
 
 
+
     fn write_u16_be ( & mut self , n : u16 ) ensures final ( self ) @ == old ( self ) @ + be16_bytes ( n ) {
 self . write ( & vx_u16_to_be_bytes ( n ) ) ;
 }
+
 
 
     fn write_u32_le ( & mut self , n : u32 ) ensures final ( self ) @ == old ( self ) @ + le32_bytes ( n ) {
@@ -271,14 +282,17 @@ self . write ( & vx_u32_to_le_bytes ( n ) ) ;
 }
 
 
+
     fn write_u32_be ( & mut self , n : u32 ) ensures final ( self ) @ == old ( self ) @ + be32_bytes ( n ) {
 self . write ( & vx_u32_to_be_bytes ( n ) ) ;
 }
 
 
+
     fn write_u64_le ( & mut self , n : u64 ) ensures final ( self ) @ == old ( self ) @ + le64_bytes ( n ) {
 self . write ( & vx_u64_to_le_bytes ( n ) ) ;
 }
+
 
 }
 
@@ -289,6 +303,7 @@ self . write ( & vx_u64_to_le_bytes ( n ) ) ;
 #[verifier::external_body]
 struct SketchSlice < 'a > {
 slice : Cursor < & 'a [ u8 ] > , }
+
 
 
 impl SketchSlice<'_> {
@@ -316,11 +331,13 @@ self . read_exact ( & mut buf ) ? ;
 Ok ( buf [ 0 ] ) }
 
 
+
     fn read_u16_le ( & mut self ) -> ( r : io :: Result < u16 > ) ensures old ( self ) . rem ( ) . len ( ) >= 2 ==> ( r matches Ok ( v ) && v == le16_val ( old ( self ) . rem ( ) . take ( 2 ) ) && final ( self ) . rem ( ) == old ( self ) . rem ( ) . skip ( 2 ) ) , old ( self ) . rem ( ) . len ( ) < 2 ==> r is Err , {
 let mut buf = [ 0u8 ;
 2 ] ;
 self . read_exact ( & mut buf ) ? ;
 Ok ( vx_u16_from_le_bytes ( buf ) ) }
+
 
 
     fn read_u32_le ( & mut self ) -> ( r : io :: Result < u32 > ) ensures old ( self ) . rem ( ) . len ( ) >= 4 ==> ( r matches Ok ( v ) && v == le32_val ( old ( self ) . rem ( ) . take ( 4 ) ) && final ( self ) . rem ( ) == old ( self ) . rem ( ) . skip ( 4 ) ) , old ( self ) . rem ( ) . len ( ) < 4 ==> r is Err , {
@@ -330,11 +347,13 @@ self . read_exact ( & mut buf ) ? ;
 Ok ( vx_u32_from_le_bytes ( buf ) ) }
 
 
+
     fn read_u64_le ( & mut self ) -> ( r : io :: Result < u64 > ) ensures old ( self ) . rem ( ) . len ( ) >= 8 ==> ( r matches Ok ( v ) && v == le64_val ( old ( self ) . rem ( ) . take ( 8 ) ) && final ( self ) . rem ( ) == old ( self ) . rem ( ) . skip ( 8 ) ) , old ( self ) . rem ( ) . len ( ) < 8 ==> r is Err , {
 let mut buf = [ 0u8 ;
 8 ] ;
 self . read_exact ( & mut buf ) ? ;
 Ok ( vx_u64_from_le_bytes ( buf ) ) }
+
 
 }
 
@@ -343,15 +362,21 @@ Ok ( vx_u64_from_le_bytes ( buf ) ) }
 // =====================================================================================================================
 const MAX_THETA : u64 = i64 :: MAX as u64 ;
 
+
 const UNCOMPRESSED_SERIAL_VERSION : u8 = 3 ;
+
 
 const COMPRESSED_SERIAL_VERSION : u8 = 4 ;
 
+
 const V2_PREAMBLE_EMPTY : u8 = 1 ;
+
 
 const V2_PREAMBLE_PRECISE : u8 = 2 ;
 
+
 const V2_PREAMBLE_ESTIMATE : u8 = 3 ;
+
 
 exec const FLAGS_IS_READ_ONLY : u8 ensures FLAGS_IS_READ_ONLY == 2 {
 proof {
@@ -359,17 +384,20 @@ assert ( ( 1u8 << 1 ) == 2 ) by ( bit_vector ) ;
 }
 1 << 1 }
 
+
 exec const FLAGS_IS_EMPTY : u8 ensures FLAGS_IS_EMPTY == 4 {
 proof {
 assert ( ( 1u8 << 2 ) == 4 ) by ( bit_vector ) ;
 }
 1 << 2 }
 
+
 exec const FLAGS_IS_COMPACT : u8 ensures FLAGS_IS_COMPACT == 8 {
 proof {
 assert ( ( 1u8 << 3 ) == 8 ) by ( bit_vector ) ;
 }
 1 << 3 }
+
 
 exec const FLAGS_IS_ORDERED : u8 ensures FLAGS_IS_ORDERED == 16 {
 proof {
@@ -378,14 +406,17 @@ assert ( ( 1u8 << 4 ) == 16 ) by ( bit_vector ) ;
 1 << 4 }
 
 
+
 struct Family {
 id : u8 , name : & 'static str , min_pre_longs : u8 , max_pre_longs : u8 , }
+
 
 
 impl Family {
     const THETA : Family = Family {
 id : 3 , name : "THETA" , min_pre_longs : 1 , max_pre_longs : 3 , }
 ;
+
 
 
     fn validate_id ( & self , family_id : u8 ) -> ( r : Result < ( ) , Error > ) ensures r is Ok <==> family_id == self . id {
@@ -395,9 +426,13 @@ else {
 Ok ( ( ) ) }
 }
 
+
 }
 
 // hash/mod.rs: the 16-bit seed hash, by contract (C16 unit `hashes`)
+const DEFAULT_UPDATE_SEED : u64 = 9001 ;
+
+
 uninterp spec fn seed_hash_of(seed: u64) -> u16;
 #[verifier::external_body]
 fn compute_seed_hash(seed: u64) -> (r: u16) ensures r == seed_hash_of(seed) { unimplemented!() }
@@ -480,6 +515,7 @@ spec fn decode_spec_v1(p: Seq<u8>, sh: u16) -> Option<ThetaImg> {
     }
 }
 // whole images, serial versions 1-3 (version 4 is the compressed form: bit_pack.rs is only under contract, see deserialize_v4)
+#[verifier::opaque]
 spec fn decode_spec(img: Seq<u8>, sh: u16) -> Option<ThetaImg> {
     if img.len() < 3 || img[2] != 3 || !(1 <= img[0] <= 3) { None }
     else if img[1] == 1 { decode_spec_v1(img.skip(3), sh) }
@@ -543,6 +579,7 @@ proof fn lemma_theta_v3_roundtrip(x: ThetaImg, sh: u16)
   ensures /*@C11.theta.v3*/ decode_spec(enc_theta_v3(x), sh) == Some(x),
     enc_theta_v3(x).len() == 8 * v3_pre_longs(x) + 8 * x.entries.len(),
 {
+    reveal(decode_spec);
     let img = enc_theta_v3(x); let p = img.skip(3); let pre = v3_pre_longs(x); let n = x.entries.len();
     lemma_le16_roundtrip(x.seed_hash); lemma_le32_roundtrip(n as u32); lemma_le64_roundtrip(x.theta);
     lemma_enc_u64s_len(x.entries); lemma_flags(x.empty, x.ordered);
@@ -574,6 +611,7 @@ struct CompactThetaSketch {
 entries : Vec < u64 > , theta : u64 , seed_hash : u16 , ordered : bool , empty : bool , }
 
 
+
 impl CompactThetaSketch {
     spec fn img(&self) -> ThetaImg { ThetaImg { entries: self.entries@, theta: self.theta, seed_hash: self.seed_hash, ordered: self.ordered, empty: self.empty } }
     spec fn wf(&self) -> bool { wf_img(self.img()) }
@@ -582,16 +620,20 @@ impl CompactThetaSketch {
 self . theta }
 
 
+
     fn is_empty ( & self ) -> ( r : bool ) ensures r == self . empty {
 self . empty }
+
 
 
     fn is_estimation_mode ( & self ) -> ( r : bool ) ensures r == ( self . theta < MAX_THETA_SPEC ) {
 self . theta < MAX_THETA }
 
 
+
     fn is_ordered ( & self ) -> ( r : bool ) ensures r == self . ordered {
 self . ordered }
+
 
 
     fn preamble_longs ( & self , compressed : bool ) -> ( r : u8 ) ensures ! compressed ==> r == v3_pre_longs ( self . img ( ) ) , compressed ==> r == ( if self . theta < MAX_THETA_SPEC {
@@ -616,6 +658,7 @@ else {
 }
 }
 }
+
 
 
     fn serialize ( & self ) -> ( r : Vec < u8 > ) requires self . entries @ . len ( ) <= 0x0fff_ffff ensures
@@ -676,6 +719,7 @@ assert ( self . entries @ . take ( self . entries @ . len ( ) as int ) =~= self 
 bytes . into_bytes ( ) }
 
 
+
     fn serialize_compressed ( & self ) -> ( r : Vec < u8 > ) requires self . wf ( ) , self . entries @ . len ( ) <= 0x0fff_ffff ensures
 /*@C12.theta.compressed_fallback*/ ! v4_suitable ( self . img ( ) ) ==> r @ == enc_theta_v3 ( self . img ( ) ) ,
 /*@C12.theta.compressed_header*/ v4_suitable ( self . img ( ) ) ==> is_v4_image_of ( r @ , self . img ( ) ) , {
@@ -686,8 +730,10 @@ self . serialize ( ) }
 }
 
 
+
     fn is_suitable_for_compression ( & self ) -> ( r : bool ) ensures r == v4_suitable ( self . img ( ) ) {
 self . ordered && ! self . entries . is_empty ( ) && ( self . entries . len ( ) != 1 || self . is_estimation_mode ( ) ) }
+
 
 
     fn serialize_v4 ( & self ) -> ( r : Vec < u8 > ) requires self . wf ( ) , v4_suitable ( self . img ( ) ) , self . entries @ . len ( ) <= 0x0fff_ffff ensures
@@ -810,6 +856,7 @@ assert ( hdr [ 3 ] == entry_bits && hdr [ 4 ] == num_entries_bytes ) ;
 bytes . into_bytes ( ) }
 
 
+
     fn compute_entry_bits ( entries : & [ u64 ] ) -> ( r : u8 ) requires sorted_strict ( entries @ ) , forall | i : int | 0 <= i < entries @ . len ( ) ==> 0 < # [ trigger ] entries @ [ i ] < 0x8000_0000_0000_0000 , ensures r <= 63 , entries @ . len ( ) > 0 ==> 1 <= r , {
 let mut previous = 0u64 ;
 let mut ored = 0u64 ;
@@ -838,6 +885,7 @@ assert ( ored < 0x8000_0000_0000_0000u64 ==> ( ored >> 63u64 ) & 1u64 == 0u64 ) 
 ( 64 - ored . leading_zeros ( ) ) as u8 }
 
 
+
     fn num_entries_bytes ( num_entries : usize ) -> ( r : u8 ) ensures r <= 4 , count_fits ( num_entries as u32 , r ) , {
 let n = num_entries as u32 ;
 let bits = u32 :: BITS - n . leading_zeros ( ) ;
@@ -846,6 +894,7 @@ vstd :: std_specs :: bits :: axiom_u32_leading_zeros ( n ) ;
 assert ( bits <= 32 && n >> bits == 0 ==> ( bits == 0 ==> n == 0 ) && ( bits <= 8 ==> n < 256 ) && ( bits <= 16 ==> n < 65536 ) && ( bits <= 24 ==> n < 0x100_0000 ) ) by ( bit_vector ) ;
 }
 bits . div_ceil ( 8 ) as u8 }
+
 
 
     fn read_entries ( cursor : & mut SketchSlice < '_ > , num_entries : usize , theta : u64 , ) -> ( r : Result < Vec < u64 > , Error > ) ensures
@@ -881,6 +930,22 @@ assert ( entries @ =~= dec_u64s ( r0 , num_entries as nat ) ) ;
 }
 Ok ( entries ) }
 
+
+    fn deserialize ( bytes : & [ u8 ] ) -> ( r : Result < Self , Error > ) ensures
+/*@C13.theta.deserialize*/ decode_spec ( bytes @ , seed_hash_of ( DEFAULT_UPDATE_SEED ) ) matches Some ( x ) ==> ( r matches Ok ( s ) && s . img ( ) == x ) ,
+/*@C14.theta.deserialize_total*/ r matches Ok ( s ) ==> all_valid ( s . entries @ , s . theta ) ,
+/*@C14.theta.v1_theta_range*/ ( bytes @ . len ( ) >= 3 && bytes @ [ 1 ] == 1 ) ==> ( r matches Ok ( s ) ==> 0 < s . theta <= MAX_THETA_SPEC ) ,
+/*@C14.theta.v1_sorted*/ ( bytes @ . len ( ) >= 3 && bytes @ [ 1 ] == 1 ) ==> ( r matches Ok ( s ) ==> ( s . ordered ==> sorted_strict ( s . entries @ ) ) ) ,
+/*@C14.theta.v2_theta_range*/ ( bytes @ . len ( ) >= 3 && bytes @ [ 1 ] == 2 ) ==> ( r matches Ok ( s ) ==> 0 < s . theta <= MAX_THETA_SPEC ) ,
+/*@C14.theta.v2_sorted*/ ( bytes @ . len ( ) >= 3 && bytes @ [ 1 ] == 2 ) ==> ( r matches Ok ( s ) ==> ( s . ordered ==> sorted_strict ( s . entries @ ) ) ) ,
+/*@C14.theta.v3_theta_range*/ ( bytes @ . len ( ) >= 3 && bytes @ [ 1 ] == 3 ) ==> ( r matches Ok ( s ) ==> 0 < s . theta <= MAX_THETA_SPEC ) ,
+/*@C14.theta.v3_sorted*/ ( bytes @ . len ( ) >= 3 && bytes @ [ 1 ] == 3 ) ==> ( r matches Ok ( s ) ==> ( s . ordered ==> sorted_strict ( s . entries @ ) ) ) ,
+/*@C14.theta_v4.theta_range*/ ( bytes @ . len ( ) >= 3 && bytes @ [ 1 ] == 4 ) ==> ( r matches Ok ( s ) ==> 0 < s . theta <= MAX_THETA_SPEC ) ,
+/*@C14.theta_v4.sorted*/ ( bytes @ . len ( ) >= 3 && bytes @ [ 1 ] == 4 ) ==> ( r matches Ok ( s ) ==> ( s . ordered ==> sorted_strict ( s . entries @ ) ) ) ,
+/*@C14.theta_v4.empty_consistent*/ ( bytes @ . len ( ) >= 3 && bytes @ [ 1 ] == 4 ) ==> ( r matches Ok ( s ) ==> ( s . empty ==> s . entries @ . len ( ) == 0 && s . theta == MAX_THETA_SPEC ) ) , {
+Self :: deserialize_with_seed ( bytes , DEFAULT_UPDATE_SEED ) }
+
+
     fn deserialize_with_seed ( bytes : & [ u8 ] , seed : u64 ) -> ( r : Result < Self , Error > ) ensures
 /*@C13.theta.dispatch*/ decode_spec ( bytes @ , seed_hash_of ( seed ) ) matches Some ( x ) ==> ( r matches Ok ( s ) && s . img ( ) == x ) ,
 /*@C13.theta.dispatch_sound*/ r matches Ok ( s ) ==> bytes @ . len ( ) >= 3 && ( bytes @ [ 1 ] == 4 || decode_spec ( bytes @ , seed_hash_of ( seed ) ) == Some ( s . img ( ) ) ) ,
@@ -892,6 +957,7 @@ let family_id = cursor . read_u8 ( ) . vx_io ( "family_id" ) ? ;
 Family :: THETA . validate_id ( family_id ) ? ;
 vx_ensure_pre_longs ( Family :: THETA . min_pre_longs , Family :: THETA . max_pre_longs , pre_longs , ) ? ;
 proof {
+reveal ( decode_spec ) ;
 assert ( bytes @ . skip ( 1 ) . skip ( 1 ) . skip ( 1 ) =~= bytes @ . skip ( 3 ) ) ;
 }
 match ser_ver {
@@ -899,12 +965,11 @@ match ser_ver {
 }
 
 
+
     fn deserialize_v1 ( mut cursor : SketchSlice < '_ > , expected_seed : u64 ) -> ( r : Result < Self , Error > ) ensures
 /*@C13.theta.v1*/ decode_spec_v1 ( cursor . rem ( ) , seed_hash_of ( expected_seed ) ) matches Some ( x ) ==> ( r matches Ok ( s ) && s . img ( ) == x ) ,
 /*@C13.theta.v1_sound*/ r matches Ok ( s ) ==> decode_spec_v1 ( cursor . rem ( ) , seed_hash_of ( expected_seed ) ) == Some ( s . img ( ) ) ,
-/*@C14.theta.v1_total*/ r matches Ok ( s ) ==> all_valid ( s . entries @ , s . theta ) && ( s . empty ==> s . entries @ . len ( ) == 0 && s . theta == MAX_THETA_SPEC ) ,
-/*@C14.theta.v1_theta_range*/ r matches Ok ( s ) ==> 0 < s . theta <= MAX_THETA_SPEC ,
-/*@C14.theta.v1_sorted*/ r matches Ok ( s ) ==> ( s . ordered ==> sorted_strict ( s . entries @ ) ) , {
+/*@C14.theta.v1_total*/ r matches Ok ( s ) ==> all_valid ( s . entries @ , s . theta ) && ( s . empty ==> s . entries @ . len ( ) == 0 && s . theta == MAX_THETA_SPEC ) , {
 let ghost p = cursor . rem ( ) ;
 let seed_hash = compute_seed_hash ( expected_seed ) ;
 cursor . read_u8 ( ) . vx_io ( "<unused>" ) ? ;
@@ -933,12 +998,11 @@ entries , theta , seed_hash , ordered : true , empty : false , }
 ) }
 
 
+
     fn deserialize_v2 ( pre_longs : u8 , mut cursor : SketchSlice < '_ > , expected_seed : u64 , ) -> ( r : Result < Self , Error > ) ensures
 /*@C13.theta.v2*/ decode_spec_v2 ( cursor . rem ( ) , pre_longs , seed_hash_of ( expected_seed ) ) matches Some ( x ) ==> ( r matches Ok ( s ) && s . img ( ) == x ) ,
 /*@C13.theta.v2_sound*/ r matches Ok ( s ) ==> decode_spec_v2 ( cursor . rem ( ) , pre_longs , seed_hash_of ( expected_seed ) ) == Some ( s . img ( ) ) ,
-/*@C14.theta.v2_total*/ r matches Ok ( s ) ==> all_valid ( s . entries @ , s . theta ) && ( s . empty ==> s . entries @ . len ( ) == 0 && s . theta == MAX_THETA_SPEC ) ,
-/*@C14.theta.v2_theta_range*/ r matches Ok ( s ) ==> 0 < s . theta <= MAX_THETA_SPEC ,
-/*@C14.theta.v2_sorted*/ r matches Ok ( s ) ==> ( s . ordered ==> sorted_strict ( s . entries @ ) ) , {
+/*@C14.theta.v2_total*/ r matches Ok ( s ) ==> all_valid ( s . entries @ , s . theta ) && ( s . empty ==> s . entries @ . len ( ) == 0 && s . theta == MAX_THETA_SPEC ) , {
 let ghost p = cursor . rem ( ) ;
 cursor . read_u8 ( ) . vx_io ( "<unused>" ) ? ;
 cursor . read_u16_le ( ) . vx_io ( "<unused_u16>" ) ? ;
@@ -986,12 +1050,11 @@ _ => Err ( Error :: invalid_preamble_longs ( & [ 1 , 2 , 3 ] , pre_longs ) ) , }
 }
 
 
+
     fn deserialize_v3 ( pre_longs : u8 , mut cursor : SketchSlice < '_ > , expected_seed : u64 , ) -> ( r : Result < Self , Error > ) requires 1 <= pre_longs <= 3 , ensures
 /*@C13.theta.v3*/ decode_spec_v3 ( cursor . rem ( ) , pre_longs , seed_hash_of ( expected_seed ) ) matches Some ( x ) ==> ( r matches Ok ( s ) && s . img ( ) == x ) ,
 /*@C13.theta.v3_sound*/ r matches Ok ( s ) ==> decode_spec_v3 ( cursor . rem ( ) , pre_longs , seed_hash_of ( expected_seed ) ) == Some ( s . img ( ) ) ,
-/*@C14.theta.v3_total*/ r matches Ok ( s ) ==> all_valid ( s . entries @ , s . theta ) && ( s . empty ==> s . entries @ . len ( ) == 0 && s . theta == MAX_THETA_SPEC ) ,
-/*@C14.theta.v3_theta_range*/ r matches Ok ( s ) ==> 0 < s . theta <= MAX_THETA_SPEC ,
-/*@C14.theta.v3_sorted*/ r matches Ok ( s ) ==> ( s . ordered ==> sorted_strict ( s . entries @ ) ) , {
+/*@C14.theta.v3_total*/ r matches Ok ( s ) ==> all_valid ( s . entries @ , s . theta ) && ( s . empty ==> s . entries @ . len ( ) == 0 && s . theta == MAX_THETA_SPEC ) , {
 let ghost p = cursor . rem ( ) ;
 cursor . read_u16_le ( ) . vx_io ( "<unused_u32>" ) ? ;
 let flags = cursor . read_u8 ( ) . vx_io ( "flags" ) ? ;
@@ -1039,11 +1102,9 @@ Ok ( Self {
 entries , theta , seed_hash , ordered , empty , }
 ) }
 
+
     fn deserialize_v4 ( pre_longs : u8 , mut cursor : SketchSlice < '_ > , expected_seed : u64 , ) -> ( r : Result < Self , Error > ) ensures
-/*@C14.theta_v4.total*/ r matches Ok ( s ) ==> all_valid ( s . entries @ , s . theta ) ,
-/*@C14.theta_v4.empty_consistent*/ r matches Ok ( s ) ==> ( s . empty ==> s . entries @ . len ( ) == 0 && s . theta == MAX_THETA_SPEC ) ,
-/*@C14.theta_v4.theta_range*/ r matches Ok ( s ) ==> 0 < s . theta <= MAX_THETA_SPEC ,
-/*@C14.theta_v4.sorted*/ r matches Ok ( s ) ==> ( s . ordered ==> sorted_strict ( s . entries @ ) ) , {
+/*@C14.theta_v4.total*/ r matches Ok ( s ) ==> all_valid ( s . entries @ , s . theta ) , {
 let entry_bits = cursor . read_u8 ( ) . vx_io ( "entry_bits" ) ? ;
 let num_entries_bytes = cursor . read_u8 ( ) . vx_io ( "num_entries" ) ? ;
 let flags = cursor . read_u8 ( ) . vx_io ( "flags" ) ? ;
@@ -1112,6 +1173,7 @@ let ordered = ( flags & FLAGS_IS_ORDERED ) != 0 ;
 Ok ( Self {
 entries , theta , seed_hash , ordered , empty , }
 ) }
+
 
 }
 // =====================================================================================================================
